@@ -33,6 +33,11 @@ pub const LZ77_MAX_LEN: u16 = (LZ77_MAX_SYMBOL - 2) >> 1;
 
 const LZ77_MAX_SYMBOL: u16 = 39;
 
+/// Verification hook (`--cfg signalapp_mp4san_verif` only): the capacity of the [`BitBufReader`] used by the lossless
+/// validators, so that they can be run with tiny buffers. Defaults to the production value.
+#[cfg(signalapp_mp4san_verif)]
+pub static VERIF_BIT_BUF_CAPACITY: std::sync::atomic::AtomicUsize = std::sync::atomic::AtomicUsize::new(4096);
+
 //
 // BitBufReader impls
 //
